@@ -585,9 +585,9 @@ func VerifC17xFlushOrder() { c17xRun(200, 9, 0, false) }
 
 // quick: every order from the first close request on (incl. simultaneous
 // shutdown and early flushes), narrower fee range.
-func VerifC17xLifeCycle() { c17xRun(150, 6, 1, false) }
+func VerifC17xLifeCycle() { c17xRun(200, 9, 1, false) }
 
 // thorough
 func VerifC17xFlushOrderThorough() { c17xRun(400, 16, 0, false) }
 func VerifC17xFlushOrderMaxFee()   { c17xRun(200, 9, 0, true) }
-func VerifC17xLifeCycleThorough()  { c17xRun(200, 9, 1, false) }
+func VerifC17xLifeCycleThorough()  { c17xRun(300, 13, 1, false) }
